@@ -46,6 +46,32 @@ def directed(rng: random.Random, tier: str):
             hs.round([(4, hs.publish(100, b"x"))], [1, 2, 3, 4], 1)
             hs.round([(4, hs.publish(100, b"after"))], [1, 4], 2)
             out.append(hs)
+    # death discovered on the write side of the ACKNOWLEDGE of the victim's own SUBSCRIBE / RESUME (after each protocol
+    # step: fresh, subscribed to individual types, paused): whatever the request registered must be gone with it
+    for lvl in (60, 10):
+        for step in ("sub", "sub-all-after-one", "resume-after-pause", "unsub", "pause"):
+            for v2 in (True, False):
+                hs = C.History(loglevel=lvl, tag="dies-on-own-ack")
+                for _ in range(4):
+                    hs.round([], [], 0, accept=True)
+                w = [1, 2, 3, 4]
+                hs.round([(1, hs.connect_v2(logger=1, mod_id=0))], w, 0)
+                hs.round([(1, hs.sub("sub", C.ALL))], w, 0)
+                hs.round([(2, hs.connect_v2(mod_id=42, name=b"victim") if v2 else hs.connect_v1(src_mod=42)),
+                          (3, hs.connect_v1(src_mod=21)), (4, hs.connect_v1(src_mod=22))], w, 0)
+                hs.round([(3, hs.sub("sub", 100))], w, 0)
+                if step == "sub-all-after-one":
+                    hs.round([(2, hs.sub("sub", 101, src_mod=42))], w, 0)
+                if step in ("resume-after-pause", "unsub", "pause"):
+                    hs.round([(2, hs.sub("sub", 100, src_mod=42))], w, 0)
+                if step == "resume-after-pause":
+                    hs.round([(2, hs.sub("pause", 100, src_mod=42))], w, 0)
+                hs.fault(2, 0)
+                req = dict([("sub", ("sub", 100)), ("sub-all-after-one", ("sub", C.ALL)), ("resume-after-pause", ("resume", 100)),
+                            ("unsub", ("unsub", 100)), ("pause", ("pause", 100))])[step]
+                hs.round([(2, hs.sub(req[0], req[1], src_mod=42))], w, 1)
+                hs.round([(4, hs.publish(100, b"after"))], [1, 3, 4], 2)
+                out.append(hs)
     return out
 
 
